@@ -439,42 +439,70 @@ def classes():
     def vec(rng, dtype="float32", lo=0, hi=3):
         return gen_tensor(rng, dtype, 1, [rng.randint(lo, hi)])
 
-    def xy(rng, k=None, cols=None):
+    def xy(rng, k=None, cols=None, dt="float32"):
         k = rng.randint(1, 3) if k is None else k
         shape = [k] if cols is None else [k, cols]
-        return [gen_tensor(rng, "float32", len(shape), shape), gen_tensor(rng, "float32", len(shape), shape)]
+        return [gen_tensor(rng, dt, len(shape), shape), gen_tensor(rng, dt, len(shape), shape)]
 
-    def acc_args(rng, v):
+    def acc_args(rng, v, dt="float32"):
         k = rng.randint(1, 3)
-        return [gen_tensor(rng, "float32", 2, [k, 3]),
+        return [gen_tensor(rng, dt, 2, [k, 3]),
                 {"dtype": "int64", "shape": [k], "data": [rng.randint(0, 2) for _ in range(k)]}]
 
-    def auroc_args(rng, v):
+    def auroc_args(rng, v, dt="float32"):
         k = rng.randint(1, 3)
-        return [gen_tensor(rng, "float32", 1, [k]),
+        return [gen_tensor(rng, dt, 1, [k]),
                 {"dtype": "float32", "shape": [k], "data": [rng.randint(0, 1) for _ in range(k)]}]
 
+    # every generator: (rng, variant, dt="float32") -> update arguments; ``dt`` is the dtype of the data
+    # tensors (all of them: input and target of the regression classes share it)
     _CLS = {
-        "Mean": (lambda: M.Mean(), lambda rng, v: [vec(rng, lo=1)]),
-        "Sum": (lambda: M.Sum(), lambda rng, v: [vec(rng, lo=1)]),
-        "Max": (lambda: M.Max(), lambda rng, v: [vec(rng, lo=1)]),
-        "Min": (lambda: M.Min(), lambda rng, v: [vec(rng, lo=1)]),
-        "Cat": (lambda: M.Cat(), lambda rng, v: [vec(rng, rng.choice(["float32", "int64"]) if v is None else v)]),
-        "Cat2d": (lambda: M.Cat(dim=0), lambda rng, v: [gen_tensor(rng, "float32", 2, [rng.randint(0, 3), 2])]),
-        "Throughput": (lambda: M.Throughput(), lambda rng, v: [rng.randint(1, 9), rng.randint(1, 8) / 4]),
+        "Mean": (lambda: M.Mean(), lambda rng, v, dt="float32": [vec(rng, dt, lo=1)]),
+        "Sum": (lambda: M.Sum(), lambda rng, v, dt="float32": [vec(rng, dt, lo=1)]),
+        "Max": (lambda: M.Max(), lambda rng, v, dt="float32": [vec(rng, dt, lo=1)]),
+        "Min": (lambda: M.Min(), lambda rng, v, dt="float32": [vec(rng, dt, lo=1)]),
+        "Cat": (lambda: M.Cat(), lambda rng, v, dt="float32": [vec(rng, rng.choice(["float32", "int64"]) if v is None else v)]),
+        "Cat2d": (lambda: M.Cat(dim=0), lambda rng, v, dt="float32": [gen_tensor(rng, dt, 2, [rng.randint(0, 3), 2])]),
+        "Throughput": (lambda: M.Throughput(), lambda rng, v, dt="float32": [rng.randint(1, 9), rng.randint(1, 8) / 4]),
         "MulticlassAccuracy": (lambda: M.MulticlassAccuracy(), acc_args),
         "MulticlassAccuracyMacro": (lambda: M.MulticlassAccuracy(average="macro", num_classes=3), acc_args),
         "BinaryAUROC": (lambda: M.BinaryAUROC(), auroc_args),
-        "MeanSquaredError": (lambda: M.MeanSquaredError(), lambda rng, v: xy(rng)),
-        "MeanSquaredErrorRaw": (lambda: M.MeanSquaredError(multioutput="raw_values"), lambda rng, v: xy(rng, cols=2)),
-        "R2ScoreRaw": (lambda: M.R2Score(multioutput="raw_values"), lambda rng, v: xy(rng, k=rng.randint(2, 3), cols=2)),
-        "Covariance": (lambda: M.Covariance(), lambda rng, v: [gen_tensor(rng, "float32", 2, [rng.randint(1, 3), 2])]),
-        "DummySumMetric": (lambda: DummySumMetric(), lambda rng, v: [gen_tensor(rng, "float32", 0)]),
-        "DummySumListStateMetric": (lambda: DummySumListStateMetric(), lambda rng, v: [gen_tensor(rng, "float32", rng.choice([1, 2]) if v is None else v)]),
-        "DictSumMetric": (H["DictSumMetric"], lambda rng, v: [rng.choice(["a", "b", "c"]) if v is None else v, gen_tensor(rng, "float32", 0)]),
-        "MixedMetric": (H["MixedMetric"], lambda rng, v: [vec(rng, lo=1)]),
+        "MeanSquaredError": (lambda: M.MeanSquaredError(), lambda rng, v, dt="float32": xy(rng, dt=dt)),
+        "MeanSquaredErrorRaw": (lambda: M.MeanSquaredError(multioutput="raw_values"), lambda rng, v, dt="float32": xy(rng, cols=2, dt=dt)),
+        "R2ScoreRaw": (lambda: M.R2Score(multioutput="raw_values"), lambda rng, v, dt="float32": xy(rng, k=rng.randint(2, 3), cols=2, dt=dt)),
+        "Covariance": (lambda: M.Covariance(), lambda rng, v, dt="float32": [gen_tensor(rng, dt, 2, [rng.randint(1, 3), 2])]),
+        "DummySumMetric": (lambda: DummySumMetric(), lambda rng, v, dt="float32": [gen_tensor(rng, dt, 0)]),
+        "DummySumListStateMetric": (lambda: DummySumListStateMetric(), lambda rng, v, dt="float32": [gen_tensor(rng, dt, rng.choice([1, 2]) if v is None else v)]),
+        "DictSumMetric": (H["DictSumMetric"], lambda rng, v, dt="float32": [rng.choice(["a", "b", "c"]) if v is None else v, gen_tensor(rng, dt, 0)]),
+        "MixedMetric": (H["MixedMetric"], lambda rng, v, dt="float32": [vec(rng, dt, lo=1)]),
     }
     return _CLS
+
+
+_FLOATS = ["float32", "float64"]
+_NUMS = ["float32", "float64", "int32", "int64"]
+# dtypes of update data fed to the SCHEMA tie (Models/SyncSchema.v), raising ones included: an update that
+# raises leaves the schema unchanged (bool: ``-`` on bool tensors; Covariance: mean() of integer data;
+# MSE / R2: a float batch added in place to an integer state)
+UPDATE_DTYPES = {
+    "Mean": _NUMS, "Sum": _NUMS, "Max": _NUMS + ["uint8", "bool"], "Min": _NUMS + ["uint8", "bool"],
+    "Cat": ["float32"], "Cat2d": _NUMS, "Throughput": ["float32"],
+    "MulticlassAccuracy": _NUMS, "MulticlassAccuracyMacro": _NUMS, "BinaryAUROC": _NUMS,
+    "MeanSquaredError": _NUMS + ["uint8", "bool"], "MeanSquaredErrorRaw": _NUMS + ["uint8", "bool"],
+    "R2ScoreRaw": _NUMS + ["uint8", "bool"], "Covariance": _FLOATS + _FLOATS + ["int64", "bool"],
+    "DummySumMetric": _NUMS, "DummySumListStateMetric": _NUMS, "DictSumMetric": _FLOATS, "MixedMetric": _NUMS,
+}
+# dtypes that may be mixed freely inside one VALID history of a toolkit scenario (every update succeeds).
+# Classes with list / dict states keep float32 data (element dtypes are an input contract of synclib).
+MIXABLE_DTYPES = {
+    "Mean": ["float32", "float64", "int64"], "Sum": ["float32", "float64", "int64"],
+    "Max": ["float32", "float64", "int64"], "Min": ["float32", "float64", "int64"],
+    "MulticlassAccuracy": _FLOATS, "MulticlassAccuracyMacro": _FLOATS,
+    "MeanSquaredError": ["float32", "float64", "int64"], "MeanSquaredErrorRaw": _FLOATS, "R2ScoreRaw": _FLOATS,
+    "Covariance": _FLOATS, "DummySumMetric": ["float32", "float64", "int64"],
+}
+# classes with a tensor state whose dtype follows the data (known finding C02-state-dtype-follows-data)
+DTYPE_FOLLOWS_DATA = {"Max", "Min", "MeanSquaredErrorRaw", "R2ScoreRaw", "Covariance"}
 
 
 NDIM_BY_FIRST_UPDATE = {"MeanSquaredErrorRaw", "R2ScoreRaw", "Covariance"}
